@@ -113,8 +113,8 @@ def projectors(ctx, N, rule):
             cfg = f"feature {solver} {name}"
             covs = [b for k, b in rec if k == "pcovr_covariance"]
             decs = [m for k, m in rec if k in ("full", "truncated")]
-            ok = len(covs) == 1 and covs[0]["mixing"].term == mix.term and covs[0]["X"].term == X.term and covs[0]["Y"].term == Yhat.term and covs[0]["rcond"] is not None and covs[0]["rcond"].term == tol.term
-            ctx.ob(rule, f"feature space diagonalises pcovr_covariance(mixing, X, Yhat, rcond=tol) [{solver},{name}]", ok, f"{[(k, {kk: repr(v.term) for kk, v in b.items() if v is not None}) for k, b in rec if k == 'pcovr_covariance']}", site, cfg)
+            ok = len(covs) == 1 and covs[0]["mixing"].term == mix.term and covs[0]["X"].term == X.term and covs[0]["Y"].term == Yhat.term and covs[0]["rcond"] is not None and covs[0]["rcond"].term == tol.term and (covs[0].get("rank") is None or covs[0]["rank"].kind == "none")
+            ctx.ob(rule, f"feature space diagonalises pcovr_covariance(mixing, X, Yhat, rcond=tol) built from the full spectrum of X^T X (no rank truncation) [{solver},{name}]", ok, f"{[(k, {kk: repr(v.term) for kk, v in b.items() if v is not None}) for k, b in rec if k == 'pcovr_covariance']}", site, cfg)
             ctx.ob(rule, f"feature space decomposes exactly the modified covariance with the {solver} solver [{name}]", len(decs) == 1 and decs[0].term.op == "CT" and rec[-1][0] == ("full" if solver == "full" else "truncated"), f"{[(k, repr(m.term)[:80]) for k, m in rec if k in ('full', 'truncated')]}", site, cfg)
             if decs:
                 mat = decs[0]
